@@ -21,6 +21,10 @@ type c20Handler struct {
 	HasPred bool   `json:"has_pred"`
 	Pred    []bool `json:"pred"` // truth table indexed by envelope number
 	Out     []bool `json:"out"`  // handler returns nil? indexed by envelope number
+	// Ping (request commands, RealServer mode): this entry is the library's own ping auto-reply, registered by
+	// AutoReplyPings() at this position; its predicate table says which envelope numbers are pings (those request
+	// commands are sent as "get /ping"); that it handled one shows in the reply the client receives
+	Ping bool `json:"ping,omitempty"`
 }
 
 type c20Case struct {
@@ -100,7 +104,7 @@ func (c *c20Case) buildMux(rec *c20Rec) *lime.EnvelopeMux {
 		},
 		func(p lime.ResponseCommandPredicate, f lime.ResponseCommandHandlerFunc) {
 			mux.ResponseCommandHandlerFunc(p, f)
-		})
+		}, nil)
 	return mux
 }
 
@@ -108,7 +112,7 @@ func (c *c20Case) registerOn(rec *c20Rec,
 	regMsg func(lime.MessagePredicate, lime.MessageHandlerFunc),
 	regNot func(lime.NotificationPredicate, lime.NotificationHandlerFunc),
 	regReq func(lime.RequestCommandPredicate, lime.RequestCommandHandlerFunc),
-	regResp func(lime.ResponseCommandPredicate, lime.ResponseCommandHandlerFunc)) {
+	regResp func(lime.ResponseCommandPredicate, lime.ResponseCommandHandlerFunc), regPing func()) {
 	pred := func(h c20Handler, n int) bool {
 		rec.mu.Lock()
 		rec.predCall[n]++
@@ -159,13 +163,21 @@ func (c *c20Case) registerOn(rec *c20Rec,
 	}
 	for i, h := range c.Tables[2] {
 		i, h := i, h
+		if h.Ping && regPing != nil {
+			regPing()
+			continue
+		}
 		var p lime.RequestCommandPredicate
 		if h.HasPred {
 			p = func(m *lime.RequestCommand) bool { return pred(h, envNum(m.ID)) }
 		}
 		regReq(p, func(ctx context.Context, m *lime.RequestCommand, s lime.Sender) error {
 			n := envNum(m.ID)
-			return handle(2, i, h, n, m.Method == lime.CommandMethodGet && m.URI != nil && m.URI.String() == fmt.Sprintf("/r%d", n))
+			want := fmt.Sprintf("/r%d", n)
+			if c.isPing(n) {
+				want = "/ping"
+			}
+			return handle(2, i, h, n, m.Method == lime.CommandMethodGet && m.URI != nil && m.URI.String() == want)
 		})
 	}
 	for i, h := range c.Tables[3] {
@@ -191,6 +203,24 @@ func docText(d lime.Document) string {
 		return string(*t)
 	}
 	return "<non-text>"
+}
+
+// isPing: the request command with this number is a ping (the case has an auto-reply entry that accepts it)
+func (c *c20Case) isPing(n int) bool {
+	for _, h := range c.Tables[2] {
+		if h.Ping && at(h.Pred, n, false) {
+			return true
+		}
+	}
+	return false
+}
+
+func (c *c20Case) envelope(kind, n int) interface{} {
+	e := c20Envelope(kind, n)
+	if kind == 2 && c.isPing(n) {
+		e.(*lime.RequestCommand).SetURIString("/ping")
+	}
+	return e
 }
 
 func c20Envelope(kind, n int) interface{} {
@@ -265,7 +295,7 @@ func (c *c20Case) drive(rec *c20Rec, sender anySender, stopped func() bool) {
 	ctx, cancel := context.WithTimeout(context.Background(), 5*time.Second)
 	defer cancel()
 	for idx, e := range c.Seq {
-		if err := sendAny(ctx, sender, c20Envelope(e[0], e[1])); err != nil {
+		if err := sendAny(ctx, sender, c.envelope(e[0], e[1])); err != nil {
 			break
 		}
 		if c.Style == "burst" && idx+1 < len(c.Seq) {
@@ -354,7 +384,7 @@ func (c *c20Case) runRealServer() error {
 			} else {
 				b.ResponseCommandHandlerFunc(p, f)
 			}
-		})
+		}, func() { b.AutoReplyPings() })
 	srv := b.Build()
 	serveDone := make(chan error, 1)
 	go func() { serveDone <- srv.ListenAndServe() }()
@@ -386,6 +416,26 @@ func (c *c20Case) runRealServer() error {
 		default:
 			return false
 		}
+	}
+	pingIdx := -1
+	for i, h := range c.Tables[2] {
+		if h.Ping {
+			pingIdx = i
+		}
+	}
+	if pingIdx >= 0 {
+		go func() {
+			for r := range cc.RespCmdChan() {
+				// the auto-reply's answer is the trace the library's own handler leaves
+				if _, ok := r.Resource.(*lime.Ping); ok && r.Status == lime.CommandStatusSuccess {
+					n := envNum(r.ID)
+					rec.mu.Lock()
+					rec.log = append(rec.log, [3]int{2, pingIdx, n})
+					rec.handled[n]++
+					rec.mu.Unlock()
+				}
+			}
+		}()
 	}
 	c.drive(rec, cc, finished)
 	// a handler error makes the server finish the session: the client's receiver sees the
@@ -450,7 +500,7 @@ func (c *c20Case) runRealClient() error {
 			} else {
 				b.ResponseCommandHandlerFunc(p, f)
 			}
-		})
+		}, nil)
 	ctx, cancel := context.WithTimeout(context.Background(), 5*time.Second)
 	defer cancel()
 	type acc struct {
@@ -605,6 +655,32 @@ func runC20(env *Env) error {
 				for e := 0; e < nenv; e++ {
 					c.Seq = append(c.Seq, [2]int{rng.Intn(4), e})
 				}
+			}
+			cases = append(cases, c)
+		}
+	}
+
+	if env.Replay == "" {
+		// the library's ping auto-reply among the request-command handlers of a built Server, at every position
+		// relative to a catch-all and to handlers with predicates; request commands 0, 2 and 4 are pings
+		isPing := []bool{true, false, true, false, true}
+		mk := func(hasPred bool, pred []bool) c20Handler {
+			return c20Handler{HasPred: hasPred, Pred: pred, Out: []bool{true, true, true, true, true}}
+		}
+		ping := c20Handler{HasPred: true, Pred: isPing, Out: []bool{true, true, true, true, true}, Ping: true}
+		tables := [][]c20Handler{
+			{ping, mk(false, nil)},
+			{mk(false, nil), ping},
+			{ping},
+			{mk(true, []bool{false, true, true, false, false}), ping, mk(false, nil)},
+			{ping, mk(true, []bool{true, true, false, false, false}), mk(false, nil)},
+			{mk(true, []bool{true, false, false, false, false}), mk(false, nil), ping},
+		}
+		for _, t := range tables {
+			c := &c20Case{Mode: "RealServer", Transport: "inproc", Style: "paced"}
+			c.Tables[2] = t
+			for e := 0; e < 5; e++ {
+				c.Seq = append(c.Seq, [2]int{2, e})
 			}
 			cases = append(cases, c)
 		}
